@@ -1,6 +1,6 @@
 SPECIFICATION Spec
 CONSTANTS
-  Part = "rewind"
+  Parts = {"rewind"}
   Seeds = {"s1", "s2", "s3"}
   Comps = {"c0", "c1", "nmax", "h0", "hmax"}
   HardComps = {"h0", "hmax"}
